@@ -32,6 +32,14 @@ def histories(sess, suite, n, tA, tB, sample=None):
         if sample and len(combos) > sample:
             combos = rng.sample(combos, sample)
             combos.append((tuple("A" for _ in others), tuple(("A", me) for _ in others)))
+            # every single-slot fault on top of the honest history, at every sender position
+            honest1, honest2 = tuple("A" for _ in others), tuple(("A", me) for _ in others)
+            for k in range(len(others)):
+                for alt in r2_slot:
+                    combos.append((honest1, honest2[:k] + (alt,) + honest2[k + 1:]))
+                for alt in ("B", None):
+                    combos.append((honest1[:k] + (alt,) + honest1[k + 1:], honest2))
+                    combos.append((honest1[:k] + (alt,) + honest1[k + 1:], honest2[:k] + ((alt, me) if alt else None,) + honest2[k + 1:]))
         cache2 = {}
         for r1a, r2a in combos:
             r1 = ";".join("%s:%s" % (l, runs[r].pkg1[l]) for l, r in zip(others, r1a) if r)
@@ -79,8 +87,14 @@ def generate(sess):
         for (tA, tB) in [(2, 2), (2, 3), (3, 3), (3, 2)]:
             histories(sess, suite, 3, tA, tB, sample=None if thorough or suite == "toy31" and tA == 2 else 150)
         histories(sess, suite, 4, 3, 2, sample=4000 if thorough else 120)
+        histories(sess, suite, 4, 2, 2, sample=4000 if thorough else 60)
+        if thorough:
+            histories(sess, suite, 4, 2, 3, sample=4000)
+            histories(sess, suite, 4, 4, 4, sample=4000)
     for suite in REAL_SUITES:
         histories(sess, suite, 3, 2, 2, sample=120 if thorough else 14)
+        if thorough:
+            histories(sess, suite, 4, 2, 2, sample=40)
 
 
 def search(sess, disagreements):
